@@ -35,6 +35,10 @@ def special_lists():
     # a '19' / '20' that is not a year, followed later by something that ends in two digits; years touching digits; two years
     L['years'] = (['mike20jones99', 'route20_ab12', 'Anna19xx-Bo07!', 'pass20love12', '19x2019', '20pass2019', '2019', 'a1987b', '12019', '201920',
                    '1920', '2019x1987', 'x20x19x2001x'], {})
+    # websites whose real top-level domain comes after an earlier-listed one that occurs only as a false positive ('.com' + letter),
+    # e-mails with two top-level domains of equal length, blanks around an e-mail
+    L['tlds'] = (['www.comics.org', 'my.community.net', 'the.network.de1', 'www.comet.com', 'joe@mail.org.net', 'sam@corp.uk.ca7',
+                  ' alice@yahoo.com', 'bob@gmail.com ', 'www.community.horse.com', 'horSe.community', 'x.commerce.org!'], {})
     # coverage boundaries
     L['coverage1'] = (['password1', 'Password1', 'love12', 'abc!'], {'coverage': 1})
     return L
